@@ -40,6 +40,7 @@ type Request struct {
 	S         Session     `json:"s"`
 	C         *Corruption `json:"c,omitempty"`
 	WantTrans bool        `json:"want_trans,omitempty"` // with the layout: the honest transcripts
+	Seq       *SeqCase    `json:"seq,omitempty"`        // a sequence of sessions on one circuit value (S, C unused)
 }
 
 // Reply is the worker's answer.
@@ -67,6 +68,61 @@ type Reply struct {
 	TimedOut  bool     `json:"timed_out,omitempty"`
 	Recycle   bool     `json:"recycle,omitempty"`
 	ElapsedMs int64    `json:"ms"`
+	// Shape of the session: input widths, number of result bits, the
+	// reference result as one bit string (result bit 0 first).
+	NX       int    `json:"nx,omitempty"`
+	NY       int    `json:"ny,omitempty"`
+	NOut     int    `json:"nout,omitempty"`
+	WantBits string `json:"want_bits,omitempty"`
+	// LabelIdx is the index (wire / result bit) of the label that the
+	// corruption's first byte lies in, -1 when it is not in a label list.
+	LabelIdx int `json:"label_idx"`
+	// Steps are the answers of a sequence request.
+	Steps []StepReply `json:"steps,omitempty"`
+}
+
+// wantBits renders the reference result as a bit string in result-bit order.
+func wantBits(p *prepared) string {
+	var sb strings.Builder
+	for i, w := range p.outs {
+		for b := 0; b < w; b++ {
+			if i < len(p.want) && p.want[i] != nil && p.want[i].Bit(b) == 1 {
+				sb.WriteByte('1')
+			} else {
+				sb.WriteByte('0')
+			}
+		}
+	}
+	return sb.String()
+}
+
+// labelIndex returns the index of the label (garbler input wire, OT wire,
+// result bit) that holds the offset; -1 for table rows and non-label kinds.
+func labelIndex(lay []Seg, dir, off int) int {
+	nth := 0
+	for _, s := range lay {
+		if s.Dir != dir {
+			continue
+		}
+		in := off >= s.Start && off < s.End
+		switch s.Kind {
+		case "output-labels", "garbler-input-labels":
+			if in {
+				return (off - s.Start) / 16
+			}
+		case "ot-labels":
+			// Two ciphertexts per OT wire, one segment each.
+			if in {
+				return nth / 2
+			}
+			nth++
+		default:
+			if in {
+				return -1
+			}
+		}
+	}
+	return -1
 }
 
 var (
@@ -142,13 +198,23 @@ func short(s string, n int) string {
 func handle(req Request) (rep Reply) {
 	t0 := time.Now()
 	rep.ID = req.ID
+	rep.LabelIdx = -1
 	defer func() { rep.ElapsedMs = time.Since(t0).Milliseconds() }()
+	if req.Seq != nil {
+		handleSeq(req.Seq, &rep)
+		return
+	}
 	h := honestFor(req.S)
 	if h.Skip != "" {
 		rep.Skip = h.Skip
 		return
 	}
 	rep.Lens = h.Lens
+	rep.NX, rep.NY = h.P.nx, h.P.ny
+	for _, o := range h.P.outs {
+		rep.NOut += o
+	}
+	rep.WantBits = wantBits(h.P)
 	if layoutErrors.Load() > 0 {
 		if v, ok := lastLayoutError.Load().(string); ok {
 			rep.LayoutErr = v
@@ -162,6 +228,7 @@ func handle(req Request) (rep Reply) {
 		return
 	}
 	rep.Kind = kindAt(h.Layout, req.C.Dir, req.C.Off)
+	rep.LabelIdx = labelIndex(h.Layout, req.C.Dir, req.C.Off)
 	rep.Want = texts(h.P.want)
 	r, err := execute(h.P, req.C, false)
 	if err != nil {
